@@ -122,6 +122,11 @@ fn check_program(base: &Xstate, src: &str, with_input: bool, stack_limit: Option
     let d0 = xs.verif_dump_light();
     trace.push(project(&d0, &DROP));
     let log_empty_at_start = dump_get(&d0, "reverse_log").starts_with("0 ");
+    if !log_empty_at_start {
+        // recording was switched on right before the compile: what the compiler executed (meta blocks)
+        // is not part of the program's history and must not stay in the log
+        return Err(("compile-leaves-reverse-log-entries".into(), String::new(), format!("after compile the reverse log holds: {}", truncate(dump_get(&d0, "reverse_log"), 300))));
+    }
     let mut ended_by_error = false;
     let mut after_failure: Option<Xstate> = None;
     let mut last_dump = d0;
